@@ -24,7 +24,7 @@ fn ref_hash(v: &[u8]) -> [u8; 20] {
 
 fn scenario<const N: usize>() {
     let v: [u8; N] = kani::any();
-    let t: [u8; 20] = kani::any();
+    let t: [u8; 20] = kani::env();
     let got = validate_immutable(&v, Id::from(t));
     let expect = ref_hash(&v) == t;
     assert!(got == expect, "C02.O3 validate_immutable iff target is SHA1(len:v)");
